@@ -1,0 +1,32 @@
+//go:build verif
+
+package fs
+
+import (
+	"context"
+)
+
+// Verification hooks (build tag verif): expose the private key-to-path mapping unchanged.
+
+// VerifPaths returns the four candidate paths Get tries, in order:
+// translation, legacy translation, default, legacy default ("" when absent).
+func (fdb *fsDb) VerifPaths(ctx context.Context, key []byte) ([4]string, error) {
+	var r [4]string
+	lk, err := fdb.ToKey(ctx, key)
+	if err != nil {
+		return r, err
+	}
+	flk, err := fdb.pathFor(ctx, &lk)
+	if err != nil {
+		return r, err
+	}
+	flka, err := fdb.altPathFor(ctx, &lk)
+	if err != nil {
+		return r, err
+	}
+	r[0] = flk.Translation
+	r[1] = flka.Translation
+	r[2] = flk.Default
+	r[3] = flka.Default
+	return r, nil
+}
